@@ -294,11 +294,9 @@ def _normalise_else_after_leave(tree: ast.AST) -> None:
                         body_leaves = _block_leaves(st.body)
                         else_leaves = _block_leaves(st.orelse)
                         if body_leaves and else_leaves:
-                            # both leave: the order of the branches is free.  The error branch stands first; otherwise the order
-                            # is kept as written (so that adding or removing the ``else`` of a guard clause changes nothing).
-                            if _is_error_branch(st.orelse) and not _is_error_branch(st.body):
-                                st.test = _negated(st.test)
-                                st.body, st.orelse = st.orelse, st.body
+                            # both leave: the order is kept as written (so that adding or removing the ``else`` of a guard clause
+                            # changes nothing); only the ``else`` is dissolved
+                            pass
                         elif else_leaves and not body_leaves and not (len(st.body) == 1 and isinstance(st.body[0], ast.If)):
                             st.test = _negated(st.test)
                             st.body, st.orelse = st.orelse, st.body
